@@ -39,6 +39,8 @@ var dirSwaps = map[string]map[string][2]string{
 		modPath + "/internal/activation": {"activation", modPath + "/zz_verif/simactivation"},
 		modPath + "/internal/activation/activatecmd": {"activatecmd", modPath + "/zz_verif/simactivate"},
 	},
+	// the server daemon takes its listening sockets from socket activation
+	"server/daemon": {modPath + "/internal/activation": {"activation", modPath + "/zz_verif/simactivation"}},
 	// the worker child process: os/exec, the descriptors handed to the child, kill(2) and the listening socket
 	"token/worker": {
 		"os/exec": {"exec", modPath + "/zz_verif/simexec"},
